@@ -312,3 +312,94 @@ int unlink(const char *path) {
     if (c == 'K') _exit(137);
     return r;
 }
+
+/* ------------------------------------------------------------------ directory enumeration seam
+ * The order in which readdir() hands out the entries of a directory is a property of the file
+ * system and of the directory's history, not of its content.  With VERIF_DIR_SEED set, every
+ * directory stream is read to its end on the first call and its entries are handed out in an order
+ * that is a pure function of the seed and the entry names. */
+#include <dirent.h>
+
+struct dstream {
+    DIR *dir;
+    struct dirent64 *ents;
+    size_t n, next;
+    int loaded;
+};
+#define MAXDIRS 64
+static struct dstream dstreams[MAXDIRS];
+
+static uint64_t name_key(const char *s, uint64_t seed) {
+    uint64_t h = 0xcbf29ce484222325ull ^ seed;
+    for (; *s; s++) h = (h ^ (unsigned char)*s) * 0x100000001b3ull;
+    h ^= h >> 29;
+    h *= 0xBF58476D1CE4E5B9ull;
+    return h ^ (h >> 32);
+}
+
+static struct dstream *stream_of(DIR *d, int create) {
+    for (int i = 0; i < MAXDIRS; i++)
+        if (dstreams[i].dir == d) return &dstreams[i];
+    if (!create) return NULL;
+    for (int i = 0; i < MAXDIRS; i++)
+        if (!dstreams[i].dir) {
+            dstreams[i].dir = d;
+            dstreams[i].ents = NULL;
+            dstreams[i].n = dstreams[i].next = 0;
+            dstreams[i].loaded = 0;
+            return &dstreams[i];
+        }
+    return NULL;
+}
+
+struct dirent64 *readdir64(DIR *d) {
+    static struct dirent64 *(*real)(DIR *);
+    if (!real) real = dlsym(RTLD_NEXT, "readdir64");
+    const char *seed_s = getenv("VERIF_DIR_SEED");
+    if (!seed_s) return real(d);
+    struct dstream *s = stream_of(d, 1);
+    if (!s) return real(d);
+    if (!s->loaded) {
+        uint64_t seed = strtoull(seed_s, NULL, 10);
+        struct dirent64 *e;
+        size_t cap = 0;
+        while ((e = real(d)) != NULL) {
+            if (s->n == cap) {
+                cap = cap ? cap * 2 : 16;
+                s->ents = realloc(s->ents, cap * sizeof *s->ents);
+            }
+            s->ents[s->n++] = *e;
+        }
+        /* insertion sort by seeded key: directories here are small */
+        for (size_t i = 1; i < s->n; i++) {
+            struct dirent64 x = s->ents[i];
+            uint64_t kx = name_key(x.d_name, seed);
+            size_t j = i;
+            while (j > 0 && name_key(s->ents[j - 1].d_name, seed) > kx) {
+                s->ents[j] = s->ents[j - 1];
+                j--;
+            }
+            s->ents[j] = x;
+        }
+        s->loaded = 1;
+    }
+    if (s->next < s->n) return &s->ents[s->next++];
+    return NULL;
+}
+
+struct dirent *readdir(DIR *d) {
+    /* on 64-bit Linux struct dirent and struct dirent64 have the same layout */
+    return (struct dirent *)readdir64(d);
+}
+
+int closedir(DIR *d) {
+    static int (*real)(DIR *);
+    if (!real) real = dlsym(RTLD_NEXT, "closedir");
+    struct dstream *s = stream_of(d, 0);
+    if (s) {
+        free(s->ents);
+        s->dir = NULL;
+        s->ents = NULL;
+    }
+    return real(d);
+}
